@@ -21,6 +21,7 @@ func init() {
 	register(&RuleSet{
 		ID: "C20",
 		Explanation: "R1 (ESP on gcpkms.(*Signer).Sign): a nil-error return is reachable only after (a) the equal edge of a comparison between a CRC32C of response.GetSignature() and response.GetSignatureCrc32C(), (b)/(c) GetVerifiedDigestCrc32C / GetVerifiedDataCrc32C returned true or the request field was found nil, (d) the type assertion to *rsa.PSSOptions succeeded and the options compared equal to the literal {EqualsHash, SHA-256}; (e) the request literal always carries both checksums (wrapperspb.Int64 of a CRC32C, the digest checksum over the digest bytes sent) so (b)/(c) cannot be skipped; the table is crc32.MakeTable(crc32.Castagnoli). " +
+			"R5 every function of keys/gcpkms that issues DestroyCryptoKeyVersion returns a non-nil error on every path on which that request failed. " +
 			"R2 (CFG, paging loops = loops in keys/gcpkms around a KeyManagementServiceClient.List* call): the loop-carried page token is this iteration's GetNextPageToken(); every back edge is dominated by the non-empty edge of a comparison of that token with \"\"; every non-error exit of the loop at its own nesting level is dominated by the empty edge (early returns from the inner item loop are allowed). " +
 			"R3 (ESP, pollers): functions returning a key-version name return a nil error only after State == ENABLED was observed on the latest poll (or from another poller); a polling loop has a select on ctx.Done() and every back edge of the loop passes it. " +
 			"R4 (CFG): the destroyable-state table covers every CryptoKeyVersionState constant of kmspb except UNSPECIFIED, maps exactly ENABLED and DISABLED to true, and defaults to an error; the destroy call in the wipeout loop is gated only by that table's verdict. " +
@@ -554,6 +555,51 @@ func runC20(c *Ctx) {
 	}
 	c.S.Floor("R2", "paging loops in keys/gcpkms", 3, nloops)
 
+	// ---------------- R5 a refused destroy is reported ----------------
+	// Every function of keys/gcpkms that issues DestroyCryptoKeyVersion returns a non-nil error on every path on
+	// which that request failed (whatever its status code): wipeout and rotation account for a version only when
+	// the service confirmed its destruction.
+	{
+		nD := 0
+		for _, f := range c.P.RepoFunctions() {
+			if load.RelPkg(f) != "keys/gcpkms" || c.isTestFunc(f) || errIndex(f.Signature) < 0 {
+				continue
+			}
+			if len(callsIn(f, func(call ssa.CallInstruction) bool { return isKMSClientCall(call, "DestroyCryptoKeyVersion") })) == 0 {
+				continue
+			}
+			nD++
+			const bFailed uint = 0
+			r := &esp.Rule{Name: "C20.R5"}
+			r.Relevant = func(*ssa.Function) bool { return false }
+			r.Match = func(in ssa.Instruction) []esp.Ev {
+				if call, ok := in.(ssa.CallInstruction); ok && isKMSClientCall(call, "DestroyCryptoKeyVersion") {
+					return []esp.Ev{{ID: 0, Name: "destroy request", ErrIdx: errIndex(call.Common().Signature()), BoolIdx: -1}}
+				}
+				return nil
+			}
+			r.Step = func(x *esp.Ctx, s esp.State, ev esp.Ev, ph esp.Phase) (esp.State, string) {
+				if ph == esp.Fail {
+					return s.Set(bFailed), ""
+				}
+				return s, ""
+			}
+			ei := errIndex(f.Signature)
+			r.AtReturn = func(x *esp.Ctx, s esp.State, rets []esp.Abs) string {
+				if s.Has(bFailed) && rets[ei] != esp.NonZero {
+					return "R5: the function may return a nil error although a DestroyCryptoKeyVersion request failed: the version is accounted for as destroyed while the service refused (it may still be ENABLED)"
+				}
+				return ""
+			}
+			e := c.engine(r)
+			e.Run(f, esp.State{})
+			if c.reportEngine(e, "R5", func(v *esp.Violation) string { return load.FuncName(f) + ":refused destroy reported" }) == 0 {
+				c.S.OK("R5", load.FuncName(f)+":refused destroy reported", c.pos(f.Pos()), fmt.Sprintf("a failed destroy request always surfaces as an error (%d configurations)", e.Configs), true)
+			}
+		}
+		c.S.Floor("R5", "functions issuing DestroyCryptoKeyVersion", 1, nD)
+	}
+
 	// ---------------- R3 pollers ----------------
 	enabled := c.extConst(kmspbPkg, "CryptoKeyVersion_ENABLED")
 	getState := func(v ssa.Value) bool { return kmsGetter(v, "CryptoKeyVersion", "GetState") }
@@ -763,7 +809,19 @@ func runC20(c *Ctx) {
 			for _, tcall := range callsIn(g, func(call ssa.CallInstruction) bool { return call.Common().StaticCallee() == f }) {
 				L := innermostLoopOf(loops, tcall.Block())
 				nd := 0
-				for _, d := range callsIn(g, func(call ssa.CallInstruction) bool { return isKMSClientCall(call, "DestroyCryptoKeyVersion") }) {
+				// the destroy request itself, or a call of a package function that issues it (the manager's own
+				// DestroyKeyVersion reused by wipeout)
+				destroys := func(call ssa.CallInstruction) bool {
+					if isKMSClientCall(call, "DestroyCryptoKeyVersion") {
+						return true
+					}
+					cal := call.Common().StaticCallee()
+					if cal == nil || cal == g || load.RelPkg(cal) != "keys/gcpkms" {
+						return false
+					}
+					return len(callsIn(cal, func(c2 ssa.CallInstruction) bool { return isKMSClientCall(c2, "DestroyCryptoKeyVersion") })) > 0
+				}
+				for _, d := range callsIn(g, destroys) {
 					if L == nil || !L.Body[d.Block()] {
 						continue
 					}
